@@ -107,6 +107,7 @@ fn bits_from(seed: u64, n: usize) -> Vec<bool> {
 pub struct Inv {
     pub fails: Vec<(String, String)>,
     pub have_seen: Vec<bool>,
+    pub cmds_checked: usize,
 }
 
 /// Invariants I1..I3 on the current state. `what` describes the step for messages.
@@ -165,6 +166,30 @@ pub fn check_invariants(w: &World, net: &Net, inv: &mut Inv, what: &str) {
             }
         }
     }
+    // I5 (C13 seen from the wire): an assignment never picks a piece that is already being fetched from another peer
+    // unless fewer than ten pieces are missing. Reported under a c13- signature; C12 itself ignores it.
+    for cr in w.cmds.iter().skip(inv.cmds_checked) {
+        if matches!(cr.kind, "RecvUnchoke" | "RecvHave" | "PieceDone" | "PieceCancel") {
+            if let Some(i) = cr.peer_piece_after {
+                let newly = cr.peer_piece_before != Some(i) || cr.kind != "RecvHave";
+                let missing_before = cr.before.iter().filter(|s| **s != Status::Have).count();
+                // after PieceDone the finished piece no longer counts as missing when the choice is made
+                let missing = if cr.kind == "PieceDone" { missing_before.saturating_sub(1) } else { missing_before };
+                if newly && i < cr.before.len() {
+                    if let Status::Reserved(k) = cr.before[i] {
+                        let own = cr.peer_piece_before == Some(i);
+                        if k > 0 && !own && missing >= 10 {
+                            inv.fails.push((
+                                "c13-assigned-piece-already-being-fetched-outside-end-game".into(),
+                                format!("{}: on {} from {} the manager assigned piece {} which was Reserved({}) by another peer while {} pieces were still missing", what, cr.kind, cr.addr, i, k, missing),
+                            ));
+                        }
+                    }
+                }
+            }
+        }
+    }
+    inv.cmds_checked = w.cmds.len();
     // I3 requests only for advertised pieces the client lacked at assignment
     for rp in &net.peers {
         for (b, f) in rp.log.iter().filter(|(b, _)| *b == net.barrier_no) {
@@ -240,6 +265,23 @@ pub async fn finisher(w: &mut World, net: &mut Net, inv: &mut Inv, check: bool) 
 }
 
 pub fn check(c: &Case) -> Outcome {
+    let mut o = check_all(c);
+    o.fails.retain(|f| !f.signature.starts_with("c13-"));
+    o
+}
+
+/// The same histories judged only by the wire-level C13 clause (used by C13's sub `histories`).
+pub fn check_c13_only(c: &Case) -> Outcome {
+    let mut o = check_all(c);
+    o.fails.retain(|f| f.signature.starts_with("c13-"));
+    o
+}
+
+pub fn histories_strategy() -> BoxedStrategy<Case> {
+    strategy()
+}
+
+fn check_all(c: &Case) -> Outcome {
     let mut o = Outcome::new();
     fresh_cwd();
     let total = c.pieces * c.piece_len;
@@ -250,7 +292,7 @@ pub fn check(c: &Case) -> Outcome {
         Box::pin(async move {
             let c = c2;
             let mut net = Net::new(&t2);
-            let mut inv = Inv { fails: vec![], have_seen: vec![false; c.pieces] };
+            let mut inv = Inv { fails: vec![], have_seen: vec![false; c.pieces], cmds_checked: 0 };
             let mut classes: Vec<&'static str> = vec![];
             let mut max_missing_with_peers = 0usize;
             for (step, op) in c.ops.iter().enumerate() {
